@@ -216,7 +216,9 @@ where
     type Stream = Self;
 
     fn into_parts(self) -> (Vector<VectorDiffContainerStreamElement<S>>, Self::Stream) {
-        (self.buffered_vector.clone(), self)
+        // The values handed to the next observer are the current view, not the
+        // internal copy of the source.
+        (self.buffered_vector.clone().truncate_from_end(self.limit), self)
     }
 }
 
